@@ -469,6 +469,28 @@ func runC19(r *Run, p *Prog) {
 				return false
 			}
 			abstractFact := func(fs []Fact, at *ssa.BasicBlock, pol bool) bool {
+				// the byte-wise spelling of the same test: len(a) > 0 && a[0] == '@'
+				for _, f := range fs {
+					first := func(t string) bool {
+						m := reFirstByte.FindStringSubmatch(strip(t))
+						return m != nil && isA(m[1], at)
+					}
+					length := func(t string) bool {
+						return strings.HasPrefix(t, "call:len(") && isA(strings.TrimSuffix(strings.TrimPrefix(t, "call:len("), ")"), at)
+					}
+					switch {
+					case pol && f.Op == "EQ" && (f.B == "const:64" && first(f.A) || f.A == "const:64" && first(f.B)):
+						return true
+					case !pol && f.Op == "NE" && (f.B == "const:64" && first(f.A) || f.A == "const:64" && first(f.B)):
+						return true
+					case !pol && f.Op == "EQ" && (f.B == "const:0" && length(f.A) || f.A == "const:0" && length(f.B)):
+						return true
+					case !pol && f.Op == "LE" && f.B == "const:0" && length(f.A):
+						return true
+					case !pol && f.Op == "LT" && f.B == "const:1" && length(f.A):
+						return true
+					}
+				}
 				for _, f := range fs {
 					if f.Op != "EQ" || f.B != ifs(pol, "const:true", "const:false") && f.A != ifs(pol, "const:true", "const:false") {
 						continue
@@ -482,6 +504,23 @@ func runC19(r *Run, p *Prog) {
 					}
 				}
 				return false
+			}
+			// "not abstract" is known in block b: as a dominating fact, or in every way of entering b (a guard written
+			// as a disjunction, e.g. len(a) == 0 || a[0] != '@')
+			notAbstractAt := func(fs []Fact, b *ssa.BasicBlock) bool {
+				if abstractFact(fs, b, false) {
+					return true
+				}
+				alts := T.blockAlternatives(b)
+				if len(alts) == 0 {
+					return false
+				}
+				for _, alt := range alts {
+					if !abstractFact(alt, b, false) {
+						return false
+					}
+				}
+				return true
 			}
 			var listenCall ssa.Instruction
 			for _, cs := range callsIn(su, false) {
@@ -513,12 +552,12 @@ func runC19(r *Run, p *Prog) {
 					case isRemove(instr):
 						c := instr.(*ssa.Call)
 						okArg := isA(T.T(c.Call.Args[0]), b)
-						g := unixFact(fs, b, true) && abstractFact(fs, b, false)
+						g := unixFact(fs, b, true) && notAbstractAt(fs, b)
 						after, _ := reachInstr(su, listenCall, func(i ssa.Instruction) bool { return i == instr }, nil, nil)
 						r.Ob("A5", shortName(su), "os.Remove only for a filesystem unix path, before listening", instr.Pos(), g && okArg && !after,
 							fmt.Sprintf("stale-socket removal must carry protocol==\"unix\" and !HasPrefix(address,\"@\") and remove exactly the parsed address before the listen call (guarded=%v, argument is the address=%v, reachable after listen=%v): otherwise an arbitrary file named by a tcp/abstract address is deleted", g, okArg, after))
 					case isUnlink(instr):
-						g := unixFact(fs, b, true) && abstractFact(fs, b, false)
+						g := unixFact(fs, b, true) && notAbstractAt(fs, b)
 						lerr := ""
 						if v, ok := listenCall.(ssa.Value); ok {
 							lerr = "ext(" + T.T(v) + ",1)"
@@ -705,6 +744,8 @@ func runC19(r *Run, p *Prog) {
 	})
 	_ = token.NoPos
 }
+
+var reFirstByte = regexp.MustCompile(`^(?:index|lookup)\((.*),const:0\)$`)
 
 var reHasPrefixAt = regexp.MustCompile(`^call:strings\.HasPrefix\((.*),const:"@"\)$`)
 
